@@ -55,6 +55,9 @@ func c18Str(r *Rng, bases []string, hot bool, marker string) c18s {
 		return c18s(c18Look[r.Intn(len(c18Look))])
 	}
 	base := bases[r.Intn(len(bases))]
+	if c18WhitePct > 0 && r.Chance(c18WhitePct) {
+		return c18s(c18White(r, base))
+	}
 	if !hot {
 		if r.Chance(12) {
 			// a little noise everywhere: positions interact (e.g. file + function in one label)
@@ -424,15 +427,54 @@ var c18OutUnits = []string{"", "", "minimum", "MB", "GB", "kB", "bytes", "hours"
 
 // c18SetLook draws the look-alike mode of a case: none, sprinkled, or heavy.
 func c18SetLook(r *Rng) int {
-	switch r.Intn(4) {
+	c18LookPct, c18WhitePct = 0, 0
+	switch r.Intn(6) {
 	case 0:
 		c18LookPct = 15
-	case 1:
+	case 1, 2:
 		c18LookPct = 60
-	default:
-		c18LookPct = 0
+	case 3:
+		c18WhitePct = 35
+		return -c18WhitePct // recorded as a negative look-alike percentage: white-space mode
 	}
 	return c18LookPct
+}
+
+// white space of every kind a reader, a trimmer or a line splitter may treat specially
+var c18WhiteAtoms = []string{" ", "\t", "\n", "\r", "\r\n", "\v", "\f", "\u00a0", "\u2028"}
+
+// c18WhiteAll is the full cross product of the atoms for lengths 1..3 (819 strings).
+var c18WhiteAll = func() []string {
+	var out []string
+	level := []string{""}
+	for n := 1; n <= 3; n++ {
+		var next []string
+		for _, p := range level {
+			for _, a := range c18WhiteAtoms {
+				next = append(next, p+a)
+			}
+		}
+		out = append(out, next...)
+		level = next
+	}
+	return out
+}()
+
+// c18WhitePct: per-string probability (percent) of a white-space string — white space only, or
+// white space around a normal name (set per case like c18LookPct).
+var c18WhitePct int
+
+func c18White(r *Rng, base string) string {
+	w := func() string { return c18WhiteAll[r.Intn(len(c18WhiteAll))] }
+	switch r.Intn(5) {
+	case 0:
+		return w() + base
+	case 1:
+		return base + w()
+	case 2:
+		return w() + base + w()
+	}
+	return w()
 }
 
 // HTML payloads: active if they reach the page unescaped.
